@@ -36,7 +36,9 @@ def lorentz_work(payload):
         dirs.append(v / np.linalg.norm(v))
     speeds = [0.0, 1e-8, 0.1, 0.5, 0.9, 0.999]
     masses = [0.0, 0.14, 2.0]
-    moms = [np.array([0.0, 0.0, 0.0]), np.array([0.3, -0.2, 0.5 + eps]), np.array([0, 0, 1.7]), np.array([-2.0, 0.1, 0.0]), np.array([10.0, -20.0, 5.0])]
+    moms = [np.array([0.0, 0.0, 0.0]), np.array([0.3, -0.2, 0.5 + eps]), np.array([0, 0, 1.7]), np.array([-2.0, 0.1, 0.0]), np.array([10.0, -20.0, 5.0]),
+            # slow particles (velocities 0.004 ... 0.09 for m = 2): series expansions live here
+            np.array([0.005, -0.003, 0.004]), np.array([0.02, 0.03, -0.015]), np.array([0.1, 0.0, 0.14])]
     vecs = []
     for m in masses:
         for p in moms:
